@@ -5,11 +5,16 @@
   entries were enumerated), not on the order in which subjects, objects or exclusion patterns were listed, and not on
   how often or to how many architectures a rule object was applied before. The interpreter-level half (hash seeds,
   in-place mutation through networkx) is observed by the correspondence runs of the C15 check.
+  Section "the MESSAGE" (and "layer rules: the message", "the fluent API") proves the same for the whole outcome the user
+  sees — verdict class AND the literal list of message lines (`assertAppliesText`, `assertAppliesLayerText`,
+  `runRuleOpsText`, `runLayerRuleOpsText`), not only for the class.
 -/
 import Bridge.Abs
 import Bridge.OrderDefs
 import PtaProofs.Lemmas.Order
 import PtaProofs.Lemmas.OrderMore
+import PtaProofs.Lemmas.OrderReport
+import PtaProofs.Lemmas.OrderReportOps
 namespace Pta.C15
 open Pta PtaSpec
 
@@ -139,6 +144,122 @@ example : Ex.nodesOf (generateGraph (fun _ _ => false) "/r/pkg".toList "pkg".toL
   Ex.nodesOf (generateGraph (fun _ _ => false) "/r/pkg".toList "pkg".toList [] [Ex.e3, Ex.e2, Ex.e1] Ex.opts) =
     some ["pkg".toList, "pkg.sub".toList, "pkg.sub.b".toList, "pkg.a".toList, "os.path".toList, "os".toList] := by decide
 
+
+/-! ## the MESSAGE (audit finding F7)
+
+The theorems above and the layer theorems below conclude equality of the verdict CLASS (`verdictOf`, `.cls`). The
+following ones conclude equality of the whole outcome of `assert_applies` as the user sees it (`TextVerdict`): pass,
+the same error, or `AssertionError` with literally THE SAME LIST OF MESSAGE LINES (`PtaModel/Message.lean`, transcribed
+from message_generator.py). Reason: the eight violation buckets depend on graph, subjects and objects only as sets, the
+generator sorts the objects inside a `does not import` line, and the lines are emitted as `sorted(set(lines))`. -/
+
+/-- master statement for module rules: two rule objects that list the same subjects / objects (in any order, with any
+    multiplicity — `SameRuleUpToOrder`), applied to two graphs with the same node and edge SETS, give the same outcome
+    with the same message lines. Covers every rule state (all verbs, `except`, `anything`, regex filters, unfinished or
+    ill-configured rules). -/
+theorem report_congr (mt : Str → Str → Bool) (g g' : PGraph Str) (hg : GraphEquiv g g') (r r' : RuleState)
+    (h : SameRuleUpToOrder r r') : (assertAppliesText mt r g).2 = (assertAppliesText mt r' g').2 :=
+  Pta.report_congr_lemma mt g g' hg r r' h
+
+/-- the order in which subjects are listed is irrelevant for the message -/
+theorem report_perm_subjects (mt : Str → Str → Bool) (g : PGraph Str) (s o n dir exc : Bool) (subs subs' objs : List Filter)
+    (h : subs.Perm subs') :
+    (assertAppliesText mt (mkRule s o n dir exc subs objs) g).2 = (assertAppliesText mt (mkRule s o n dir exc subs' objs) g).2 :=
+  Pta.report_perm_subjects_lemma mt g s o n dir exc subs subs' objs h
+
+/-- the order in which objects are listed is irrelevant for the message -/
+theorem report_perm_objects (mt : Str → Str → Bool) (g : PGraph Str) (s o n dir exc : Bool) (subs objs objs' : List Filter)
+    (h : objs.Perm objs') :
+    (assertAppliesText mt (mkRule s o n dir exc subs objs) g).2 = (assertAppliesText mt (mkRule s o n dir exc subs objs') g).2 :=
+  Pta.report_perm_objects_lemma mt g s o n dir exc subs objs objs' h
+
+/-- the `anything` alias (`objects := none`, not an instance of `mkRule`): the order of the subjects of
+    `S should not import / be imported by anything` is irrelevant for class and message (by `C12.alias_anything_dedup`
+    the rule is the `except` rule on `dedupSubjects S`, which keeps the same members for every order of `S`) -/
+theorem report_perm_anything (mt : Str → Str → Bool) (g : PGraph Str) (S S' : List Filter) (dir : Bool) (h : S.Perm S') :
+    (assertAppliesText mt (anythingRule dir S) g).2 = (assertAppliesText mt (anythingRule dir S') g).2 :=
+  Pta.report_perm_anything_lemma mt g S S' dir h
+
+/-- … and so is its verdict class (the state `perm_subjects` does not cover) -/
+theorem perm_subjects_anything (mt : Str → Str → Bool) (g : PGraph Str) (S S' : List Filter) (dir : Bool) (h : S.Perm S') :
+    verdictOf mt g (anythingRule dir S) = verdictOf mt g (anythingRule dir S') :=
+  Pta.perm_subjects_anything_lemma mt g S S' dir h
+
+/-- text version of `reapply`: re-applying a rule object (to the same or to another architecture) gives the outcome and
+    the message lines a fresh rule object gives -/
+theorem report_reapply (mt : Str → Str → Bool) (s : RuleState) (g g' : PGraph Str) :
+    (assertAppliesText mt (assertAppliesText mt s g).1 g').2 = (assertAppliesText mt s g').2 :=
+  Pta.report_reapply_lemma mt s g g'
+
+/-- the message of any rule depends only on the node set and the three edge sets of the graph -/
+theorem report_congr_graph (mt : Str → Str → Bool) (g g' : PGraph Str) (h : GraphEquiv g g') (r : RuleState) :
+    (assertAppliesText mt r g).2 = (assertAppliesText mt r g').2 :=
+  Pta.report_congr_graph_lemma mt g g' h r
+
+/-- hence not on the order in which modules and imports reach the graph constructor (also under a level limit) … -/
+theorem report_perm_modules_imports (mt : Str → Str → Bool) (a a' : Arch) (hwf : a.wf = true)
+    (hn : a.nodes.Perm a'.nodes) (hi : a.imports.Perm a'.imports) (lim : Option Nat) (r : RuleState) :
+    (assertAppliesText mt r (archGraphLim a lim)).2 = (assertAppliesText mt r (archGraphLim a' lim)).2 :=
+  Pta.report_perm_modules_imports_lemma mt a a' hwf hn hi lim r
+
+/-- … nor on the order in which the file system enumerates directory entries -/
+theorem scan_report_perm (mt mt' : Str → Str → Bool) (base rootName : Str) (mp : List Str) (entries entries' : List Entry)
+    (o : ScanOptions) (h : entries.Perm entries') (g g' : PGraph Str)
+    (hg : generateGraph mt base rootName mp entries o = .ok g) (hg' : generateGraph mt base rootName mp entries' o = .ok g')
+    (r : RuleState) : (assertAppliesText mt' r g).2 = (assertAppliesText mt' r g').2 :=
+  Pta.scan_report_perm_lemma mt mt' base rootName mp entries entries' o h g g' hg hg' r
+
+namespace Ex
+def S (s : String) : Str := s.toList
+def gm : PGraph Str :=
+  buildGraph [S "p", S "p.a", S "p.a.x", S "p.b", S "p.c", S "q", S "q.r"]
+    [absImport (S "p.a.x") (S "q"), absImport (S "p.c") (S "p.b"), absImport (S "p.c") (S "q.r")] none
+/-- the same modules and imports, handed to the constructor in another order -/
+def gm' : PGraph Str :=
+  buildGraph [S "q", S "q.r", S "p", S "p.c", S "p.b", S "p.a", S "p.a.x"]
+    [absImport (S "p.c") (S "q.r"), absImport (S "p.a.x") (S "q"), absImport (S "p.c") (S "p.b")] none
+def subsA : List Filter := [.name (S "p.a"), .name (S "p.c")]
+def subsB : List Filter := [.name (S "p.c"), .name (S "p.a"), .name (S "p.c")]
+def objsA : List Filter := [.name (S "q.r"), .name (S "p.b")]
+def objsB : List Filter := [.name (S "p.b"), .name (S "q.r")]
+end Ex
+
+/-- the hypotheses of `report_congr` on a non-trivial instance: `should only import`, subjects and objects listed in
+    different orders (one subject twice), the graph built from differently ordered lists -/
+example : SameRuleUpToOrder (mkRule false true false true false Ex.subsA Ex.objsA) (mkRule false true false true false Ex.subsB Ex.objsB) :=
+  ⟨by intro x; simp only [Ex.subsA, Ex.subsB, List.mem_cons, List.not_mem_nil, or_false]; grind,
+   by intro x; simp only [Ex.objsA, Ex.objsB, List.mem_cons, List.not_mem_nil, or_false]; exact Or.comm,
+   fun _ => Iff.rfl, rfl, rfl, rfl, rfl, rfl, rfl⟩
+example : Ex.objsA.Perm Ex.objsB := List.Perm.swap _ _ _
+set_option maxRecDepth 8000 in
+example : importsClosed [Ex.S "p", Ex.S "p.a", Ex.S "p.a.x", Ex.S "p.b", Ex.S "p.c", Ex.S "q", Ex.S "q.r"]
+    [absImport (Ex.S "p.a.x") (Ex.S "q"), absImport (Ex.S "p.c") (Ex.S "p.b"), absImport (Ex.S "p.c") (Ex.S "q.r")] = true := by
+  decide
+set_option maxRecDepth 8000 in
+example : GraphEquiv Ex.gm Ex.gm' :=
+  buildGraph_sets none _ _ _ _ (by intro x; simp only [List.mem_cons, List.not_mem_nil, or_false]; grind)
+    (by intro x; simp only [List.mem_cons, List.not_mem_nil, or_false]; grind) (by decide)
+set_option maxRecDepth 8000 in
+/-- … on which the message is not trivial, the graphs differ as data, and both sides are literally the same two lines -/
+example : Ex.gm.nodes ≠ Ex.gm'.nodes ∧
+    (assertAppliesText (fun _ _ => false) (mkRule false true false true false Ex.subsA Ex.objsA) Ex.gm).2 = .fail
+      [Ex.S "\"p.a\" does not import \"p.b\", \"q.r\".", Ex.S "\"p.a.x\" imports \"q\"."] ∧
+    (assertAppliesText (fun _ _ => false) (mkRule false true false true false Ex.subsB Ex.objsB) Ex.gm').2 = .fail
+      [Ex.S "\"p.a\" does not import \"p.b\", \"q.r\".", Ex.S "\"p.a.x\" imports \"q\"."] := by decide
+
+set_option maxRecDepth 8000 in
+/-- the report ITEMS (before rendering) do depend on the order: the objects of a `does not import` item are listed in
+    the order given; it is the generator's sorting that makes the message lines equal -/
+example : (assertApplies (fun _ _ => false) (mkRule false true false true false Ex.subsA Ex.objsA) Ex.gm).2 ≠
+    (assertApplies (fun _ _ => false) (mkRule false true false true false Ex.subsA Ex.objsB) Ex.gm).2 := by decide
+
+/-- the `anything` form with permuted subjects, one of them a sub module of another -/
+example : [Filter.name (Ex.S "p.a"), .name (Ex.S "p.a.x"), .name (Ex.S "p.c")].Perm
+    [.name (Ex.S "p.c"), .name (Ex.S "p.a.x"), .name (Ex.S "p.a")] := by decide
+set_option maxRecDepth 8000 in
+example : (assertAppliesText (fun _ _ => false) (anythingRule true [.name (Ex.S "p.c"), .name (Ex.S "p.a.x"), .name (Ex.S "p.a")]) Ex.gm).2 =
+    .fail [Ex.S "\"p.a.x\" imports \"q\".", Ex.S "\"p.c\" imports \"p.b\".", Ex.S "\"p.c\" imports \"q.r\"."] := by decide
+
 /-! ## layers -/
 
 /-- the order in which the layers were DEFINED does not matter — no hypothesis (since the repair of
@@ -213,6 +334,137 @@ theorem perm_object_layers (a : LArch) (ls ls' : List Str) (h : ls.Perm ls') :
     | .error e, .error e' => e = e'
     | _, _ => False :=
   Pta.layers_get_perm_lemma a ls ls' h
+
+
+/-! ### layer rules: the message -/
+
+/-- master statement for layer rules: layers defined in another order, a rule that lists the same subject / object
+    filters (hence the same subject / object layers) in another order, and two graphs with the same node / edge sets give
+    the same outcome with the same message lines -/
+theorem report_layer_congr (mt : Str → Str → Bool) (g g' : PGraph Str) (hg : GraphEquiv g g') (a a' : LArch) (hp : a.Perm a')
+    (r r' : RuleState) (h : SameRuleUpToOrder r r') :
+    assertAppliesLayerText mt ⟨some a, some r⟩ g = assertAppliesLayerText mt ⟨some a', some r'⟩ g' :=
+  Pta.report_layer_congr_lemma mt g g' hg a a' hp r r' h
+
+/-- the message of a layer rule depends only on the node set and the edge sets of the graph (the layer mapping the rule
+    uses expands regex layers over the module LIST, but enters the detector and the generator only through member sets) -/
+theorem report_layer_congr_graph (mt : Str → Str → Bool) (g g' : PGraph Str) (hg : GraphEquiv g g') (s : LayerRuleState) :
+    assertAppliesLayerText mt s g = assertAppliesLayerText mt s g' :=
+  Pta.report_layer_congr_graph_lemma mt g g' hg s
+
+/-- hence two scans whose directory entries are enumerated in different orders give every layer rule the same outcome
+    and the same message -/
+theorem scan_report_layer_perm (mt mt' : Str → Str → Bool) (base rootName : Str) (mp : List Str) (entries entries' : List Entry)
+    (o : ScanOptions) (h : entries.Perm entries') (g g' : PGraph Str)
+    (hg : generateGraph mt base rootName mp entries o = .ok g) (hg' : generateGraph mt base rootName mp entries' o = .ok g')
+    (s : LayerRuleState) : assertAppliesLayerText mt' s g = assertAppliesLayerText mt' s g' :=
+  Pta.scan_report_layer_perm_lemma mt mt' base rootName mp entries entries' o h g g' hg hg' s
+
+/-- text version of `perm_layers`: the message does not depend on the order in which the layers were DEFINED -/
+theorem report_perm_layers (mt : Str → Str → Bool) (larch larch' : LArch) (rule : Option RuleState) (g : PGraph Str)
+    (hp : larch.Perm larch') :
+    assertAppliesLayerText mt ⟨some larch, rule⟩ g = assertAppliesLayerText mt ⟨some larch', rule⟩ g :=
+  Pta.report_perm_layers_lemma mt larch larch' rule g hp
+
+/-- text version of `perm_layer_rule_filters` (with `perm_object_layers`: of the order in which the object LAYERS are
+    named) -/
+theorem report_perm_layer_rule_filters (mt : Str → Str → Bool) (g : PGraph Str) (a : LArch) (s o n dir exc : Bool)
+    (subs subs' objs objs' : List Filter) (hs : subs.Perm subs') (ho : objs.Perm objs') :
+    assertAppliesLayerText mt ⟨some a, some (mkRule s o n dir exc subs objs)⟩ g =
+      assertAppliesLayerText mt ⟨some a, some (mkRule s o n dir exc subs' objs')⟩ g :=
+  Pta.report_perm_layer_rule_filters_lemma mt g a s o n dir exc subs subs' objs objs' hs ho
+
+namespace Ex
+def lg : PGraph Str :=
+  buildGraph [S "p", S "p.a", S "p.a.x", S "q", S "s", S "r"]
+    [absImport (S "p.a.x") (S "q"), absImport (S "p.a") (S "s")] none
+def la1 : LArch := [(S "A", [.name (S "p.a")]), (S "B", [.name (S "q")]), (S "C", [.name (S "r")]), (S "D", [.name (S "s")])]
+def la2 : LArch := [(S "D", [.name (S "s")]), (S "C", [.name (S "r")]), (S "A", [.name (S "p.a")]), (S "B", [.name (S "q")])]
+end Ex
+
+example : Ex.la1.Perm Ex.la2 := by decide
+set_option maxRecDepth 8000 in
+/-- `A should only access C, D` against the two definition orders, objects named in the two orders: the same three lines -/
+example :
+    assertAppliesLayerText (fun _ _ => false)
+      ⟨some Ex.la1, some (mkRule false true false true false [.name (Ex.S "p.a")] [.name (Ex.S "r"), .name (Ex.S "s")])⟩ Ex.lg =
+      .fail [Ex.S "\"p.a.x\" (layer \"A\") imports \"q\" (layer \"B\").", Ex.S "Layer \"A\" does not import layer \"C\"."] ∧
+    assertAppliesLayerText (fun _ _ => false)
+      ⟨some Ex.la2, some (mkRule false true false true false [.name (Ex.S "p.a")] [.name (Ex.S "s"), .name (Ex.S "r")])⟩ Ex.lg =
+      .fail [Ex.S "\"p.a.x\" (layer \"A\") imports \"q\" (layer \"B\").", Ex.S "Layer \"A\" does not import layer \"C\"."] := by
+  decide
+
+
+namespace Ex
+/-- a regex engine for the example: the pattern `P` matches the identifiers that start with `p` -/
+def mtP : Str → Str → Bool := fun r m => r == S "P" && m.take 1 == S "p"
+def laP : LArch := [(S "P", [.regex (S "P")]), (S "Q", [.name (S "q")])]
+def ruleP : RuleState := mkRule false false true true false [.regex (S "P")] [.name (S "q")]
+end Ex
+set_option maxRecDepth 8000 in
+/-- `report_layer_congr_graph` on the two differently ordered graphs `Ex.gm` / `Ex.gm'` with a regex layer: the layer
+    mappings the rule uses list the matched modules in different orders, the message is the same two lines -/
+example : updateLayerMap Ex.mtP Ex.gm.nodes Ex.laP [Ex.S "P"] ≠ updateLayerMap Ex.mtP Ex.gm'.nodes Ex.laP [Ex.S "P"] ∧
+    assertAppliesLayerText Ex.mtP ⟨some Ex.laP, some Ex.ruleP⟩ Ex.gm =
+      .fail [Ex.S "\"p.a.x\" (layer \"P\") imports \"q\" (layer \"Q\").",
+             Ex.S "\"p.c\" (layer \"P\") imports \"q.r\" (layer \"Q\")."] ∧
+    assertAppliesLayerText Ex.mtP ⟨some Ex.laP, some Ex.ruleP⟩ Ex.gm' =
+      .fail [Ex.S "\"p.a.x\" (layer \"P\") imports \"q\" (layer \"Q\").",
+             Ex.S "\"p.c\" (layer \"P\") imports \"q.r\" (layer \"Q\")."] := by decide
+
+/-! ### the fluent API
+
+The statements above are about finished rule objects. At the level of the calls the user writes: -/
+
+/-- two `Rule` call chains that differ only in the order in which the names are listed inside `are_named(...)`,
+    `are_sub_modules_of(...)`, `have_name_containing(...)` (`RuleOpsUpToOrder`: element-wise `RuleOpPerm`), run against
+    two graphs with the same node / edge sets: the same call raises the same error, or `assert_applies` gives the same
+    outcome with the same message lines (the second component is the index of the raising call) -/
+theorem run_report_perm (glob : Str → Str) (mt : Str → Str → Bool) (g g' : PGraph Str) (hg : GraphEquiv g g')
+    (ops ops' : List RuleOp) (h : RuleOpsUpToOrder ops ops') :
+    runRuleOpsText glob mt ops g = runRuleOpsText glob mt ops' g' :=
+  Pta.run_report_perm_lemma glob mt g g' hg ops ops' h
+
+/-- the same for `LayerRule` call chains: the layer names inside `are_named(...)` listed in another order, and
+    `based_on` given an architecture whose layers were defined in another order (`ArchRel`: a permutation under which every
+    layer name denotes the same filters — for architectures the builder produces, any permutation: `archRel_of_builder`) -/
+theorem run_layer_report_perm (mt : Str → Str → Bool) (g g' : PGraph Str) (hg : GraphEquiv g g')
+    (ops ops' : List LayerRuleOp) (h : LayerRuleOpsUpToOrder ops ops') :
+    runLayerRuleOpsText mt ops g = runLayerRuleOpsText mt ops' g' :=
+  Pta.run_layer_report_perm_lemma mt g g' hg ops ops' h
+
+theorem archRel_of_builder (h : List LArchOp) (a a' : LArch) (ha : runLArch h = .ok a) (hp : a.Perm a') :
+    Pta.OrdR.ArchRel a a' :=
+  Pta.archRel_of_builder_lemma h a a' ha hp
+
+namespace Ex
+def opsA : List RuleOp :=
+  [.modulesThat, .areNamed [S "p.a", S "p.c"], .shouldOnly, .importThat, .areNamed [S "q.r", S "p.b"]]
+def opsB : List RuleOp :=
+  [.modulesThat, .areNamed [S "p.c", S "p.a"], .shouldOnly, .importThat, .areNamed [S "p.b", S "q.r"]]
+def buildLa1 : List LArchOp :=
+  [.layer (S "A"), .containingModules [S "p.a"], .layer (S "B"), .containingModules [S "q"],
+   .layer (S "C"), .containingModules [S "r"], .layer (S "D"), .containingModules [S "s"]]
+def lopsA : List LayerRuleOp :=
+  [.basedOn la1, .layersThat, .areNamed [S "A"] false, .shouldOnly, .access, .areNamed [S "C", S "D"] true]
+def lopsB : List LayerRuleOp :=
+  [.basedOn la2, .layersThat, .areNamed [S "A"] false, .shouldOnly, .access, .areNamed [S "D", S "C"] true]
+end Ex
+
+example : RuleOpsUpToOrder Ex.opsA Ex.opsB :=
+  .cons (.refl _) (.cons (.areNamed (List.Perm.swap _ _ _)) (.cons (.refl _) (.cons (.refl _)
+    (.cons (.areNamed (List.Perm.swap _ _ _)) .nil))))
+set_option maxRecDepth 8000 in
+example : runRuleOpsText id (fun _ _ => false) Ex.opsB Ex.gm' =
+    (.fail [Ex.S "\"p.a\" does not import \"p.b\", \"q.r\".", Ex.S "\"p.a.x\" imports \"q\"."], 5) := by decide
+example : runLArch Ex.buildLa1 = .ok Ex.la1 := by rfl
+example : LayerRuleOpsUpToOrder Ex.lopsA Ex.lopsB :=
+  .cons (.basedOn (archRel_of_builder Ex.buildLa1 Ex.la1 Ex.la2 (by rfl) (by decide))) (.cons (.refl _) (.cons (.refl _) (.cons (.refl _)
+    (.cons (.refl _) (.cons (.areNamed true (List.Perm.swap _ _ _)) .nil)))))
+set_option maxRecDepth 8000 in
+example : runLayerRuleOpsText (fun _ _ => false) Ex.lopsB Ex.lg =
+    (.fail [Ex.S "\"p.a.x\" (layer \"A\") imports \"q\" (layer \"B\").", Ex.S "Layer \"A\" does not import layer \"C\"."], 6) := by
+  decide
 
 /-! ## diagram rules -/
 
